@@ -85,6 +85,9 @@ func c17csv(t string) []int {
 }
 
 func (r *c17) Exec(op []string) string {
+	if op[0] != "reset" && op[0] != "stripe" {
+		r.noteLen(op[0])
+	}
 	switch op[0] {
 	case "reset":
 		off, n, cp := atoi(op[1]), atoi(op[2]), atoi(op[3])
@@ -131,6 +134,8 @@ func (r *c17) Exec(op []string) string {
 		default:
 			r.st.Note("partition-already-ordered")
 		}
+		lbNote(r.st, "partition-kept", nk)
+		lbNote(r.st, "partition-dropped", len(r.vs)-nk)
 		return r.call(func() string {
 			res := slice.Partition(r.vs, keep)
 			o := r.sub(res)
@@ -159,8 +164,11 @@ func (r *c17) Exec(op []string) string {
 			}
 			if g > 1 {
 				r.st.Note("rotate-gcd>1")
+				lbNote(r.st, "rotate-gcd>1-len", n)
+				lbNote(r.st, "rotate-cycles", g)
 			} else {
 				r.st.Note("rotate-single-cycle")
+				lbNote(r.st, "rotate-single-cycle-len", n)
 			}
 		}
 		return r.call(func() string {
@@ -206,6 +214,10 @@ func (r *c17) Exec(op []string) string {
 				ss = slice.Chunks(r.vs, n)
 			} else {
 				ss = slice.Batches(r.vs, n)
+			}
+			lbNote(r.st, op[0]+"-pieces", len(ss))
+			if len(ss) > 0 {
+				lbNote(r.st, op[0]+"-piece-len", len(ss[0]))
 			}
 			o := r.subs(ss)
 			for i, s := range ss {
@@ -280,6 +292,7 @@ func (r *c17) Exec(op []string) string {
 			}
 			vs = append(vs, v)
 		}
+		lbNote(r.st, "stripe-lists", len(vs))
 		if skipped && i >= 0 {
 			r.st.Note("stripe-skips-short")
 		} else if i >= 0 {
@@ -377,6 +390,7 @@ func genC17Partition(g *G) {
 		}
 		g.Case(ops)
 	}
+	genC17PartitionLarge(g)
 }
 
 func genC17Rotate(g *G) {
@@ -410,6 +424,7 @@ func genC17Rotate(g *G) {
 		}
 		g.Case(ops)
 	}
+	genC17RotateLarge(g)
 }
 
 func genC17Sub(op string) func(g *G) {
@@ -440,6 +455,7 @@ func genC17Sub(op string) func(g *G) {
 			}
 			g.Case(ops)
 		}
+		genC17SubLarge(g, op)
 	}
 }
 
@@ -509,6 +525,7 @@ func genC17Index(g *G) {
 		}
 		g.Case(ops)
 	}
+	genC17IndexLarge(g)
 }
 
 func init() {
